@@ -9,6 +9,7 @@ import (
 	"path/filepath"
 	"sort"
 	"strings"
+	"sync"
 	"syscall"
 	"time"
 
@@ -504,4 +505,99 @@ func watchManyUnsubscribedCase() Case {
 		cs.Fail, cs.Sig = fmt.Sprintf("after twelve events of a type that is not subscribed, write events on the observed file ran the task: first %v, second %v", first, second), "c20-stops-serving"
 	}
 	return cs
+}
+
+// several watchers with tasks of their own on ONE runner, each handed an event at the same instant, round after round (and
+// one watcher handed several events at once): every task run describes ITS event - name, path and the task's own name
+func eventBindingStressCase(col *Collector, k, rounds int, oneWatcher bool) {
+	dir := newScratchDir("c20s")
+	defer os.RemoveAll(dir)
+	cs := Case{Tags: []string{"event-binding-stress"}, NonTrivial: true, Replay: fmt.Sprintf("%d events handled at the same instant on one runner (one watcher for all: %v), %d rounds; every run prints TASK_NAME, EventName and EventPath", k, oneWatcher, rounds)}
+	r, err := runner.NewTaskRunner()
+	if err != nil {
+		cs.Fail, cs.Sig = err.Error(), "c20-newwatcher"
+		col.Add(cs)
+		return
+	}
+	r.Stdout, r.Stderr = devNull{}, devNull{}
+	var ws []*verifhooks.Watcher
+	outs := make([]string, k)
+	for i := 0; i < k; i++ {
+		outs[i] = filepath.Join(dir, fmt.Sprintf("out-%d", i))
+		if oneWatcher && i > 0 {
+			ws = append(ws, ws[0])
+			continue
+		}
+		out := outs[i]
+		if oneWatcher {
+			out = filepath.Join(dir, "out-$(basename $EventPath)")
+		}
+		t := task.FromCommands(fmt.Sprintf("echo \"$TASK_NAME $EventName $EventPath {{ .EVENT_NAME }} {{ .EVENT_PATH }}\" >> %s", out))
+		t.Name = fmt.Sprintf("task%d", i)
+		w, err := verifhooks.NewWatcher(fmt.Sprintf("w%d", i), nil, nil, nil, t)
+		if err != nil {
+			cs.Fail, cs.Sig = err.Error(), "c20-newwatcher"
+			col.Add(cs)
+			return
+		}
+		go w.Close()
+		ws = append(ws, w)
+	}
+	bad := ""
+	for round := 0; round < rounds && bad == ""; round++ {
+		start := make(chan struct{})
+		var wg sync.WaitGroup
+		type evt struct {
+			op   int
+			path string
+		}
+		evs := make([]evt, k)
+		for i := 0; i < k; i++ {
+			evs[i] = evt{(round + i) % len(allOps), fmt.Sprintf("/watched/r%d/%d", round, i)}
+			if oneWatcher {
+				evs[i].path = fmt.Sprintf("/watched/r%d/%d", round, i)
+			}
+			wg.Add(1)
+			go func(i int) {
+				defer wg.Done()
+				defer func() {
+					if p := recover(); p != nil {
+						bad = fmt.Sprint("handler panicked: ", p)
+					}
+				}()
+				<-start
+				ws[i].VerifHandle(r, fsnotify.Event{Name: evs[i].path, Op: allOps[evs[i].op]})
+			}(i)
+		}
+		close(start)
+		done := make(chan struct{})
+		go func() { wg.Wait(); close(done) }()
+		select {
+		case <-done:
+		case <-time.After(20 * time.Second):
+			bad = "the event handlers did not return within 20s"
+			continue
+		}
+		for i := 0; i < k && bad == ""; i++ {
+			name := fmt.Sprintf("task%d", i)
+			file := outs[i]
+			if oneWatcher {
+				name, file = "task0", filepath.Join(dir, fmt.Sprintf("out-%d", i))
+			}
+			lines := readTrace(file)
+			want := fmt.Sprintf("%s %s %s %s %s", name, allEvents[evs[i].op], evs[i].path, allEvents[evs[i].op], evs[i].path)
+			if len(lines) != round+1 || lines[round] != want {
+				got := "(nothing)"
+				if len(lines) > 0 {
+					got = lines[len(lines)-1]
+				}
+				bad = fmt.Sprintf("round %d: the run for event %s on %s (task %s) printed %q (%d lines so far), expected %q", round, allEvents[evs[i].op], evs[i].path, name, got, len(lines), want)
+			}
+		}
+	}
+	cs.Impl = "bound=" + fmt.Sprint(bad == "")
+	if bad != "" {
+		cs.Fail, cs.Sig = bad, "c20-event-binding"
+	}
+	col.Add(cs)
 }
